@@ -1884,7 +1884,11 @@ class AdvertisingData:
         ):
             return ad_data.decode("utf-8")
 
-        if ad_type in (AdvertisingData.Type.TX_POWER_LEVEL, AdvertisingData.Type.FLAGS):
+        if ad_type == AdvertisingData.Type.TX_POWER_LEVEL:
+            # Signed 8-bit value (Core Specification Supplement, Part A, 1.5)
+            return cast(int, struct.unpack('b', ad_data)[0])
+
+        if ad_type == AdvertisingData.Type.FLAGS:
             return cast(int, struct.unpack('B', ad_data)[0])
 
         if ad_type in (AdvertisingData.Type.ADVERTISING_INTERVAL,):
